@@ -1077,3 +1077,108 @@ Proof.
   split; [reflexivity|]. split; [reflexivity|]. split; [reflexivity|].
   intros q. simpl. rewrite L2. unfold vlookup. rewrite Lv. reflexivity.
 Qed.
+
+(** * Copies through the cache are complete *)
+Lemma c_write_inv c p data c1 :
+  Inv c -> good_path p = true -> p <> [] -> c_write c p data = (c1, RUnit) ->
+  Inv c1 /\ vlookup c1 p = Some (F data) /\
+  (forall q, q <> p -> vlookup c q <> None -> vlookup c1 q = vlookup c q).
+Proof.
+  intros I Hg Hp H. unfold c_write in H. destruct (check_dest c p false) eqn:E; [|discriminate].
+  destruct (c_write_spec c p data I Hg Hp E) as (c' & H' & I' & L & Fr & _).
+  unfold c_write in H'. rewrite E in H'. rewrite H in H'. inversion H'; subst c'. auto.
+Qed.
+
+Lemma c_mkdir_inv c p c1 :
+  Inv c -> good_path p = true -> c_mkdir c p = (c1, RUnit) ->
+  Inv c1 /\ vlookup c1 p = Some D /\ (forall q, vlookup c q <> None -> vlookup c1 q = vlookup c q).
+Proof.
+  intros I Hg H. destruct p as [|n p].
+  - simpl in H. inversion H; subst. auto.
+  - unfold c_mkdir in H. destruct (check_dest c (n :: p) true) eqn:E; [|discriminate].
+    destruct (c_mkdir_spec c (n :: p) I Hg ltac:(discriminate) E) as (c' & H' & I' & L & Fr & _).
+    unfold c_mkdir in H'. rewrite E in H'. rewrite H in H'. inversion H'; subst c'. auto.
+Qed.
+
+Lemma copy_entries_spec l : forall c dst c',
+  Inv c -> good_path dst = true ->
+  (forall rel e, In (rel, e) l -> good_path rel = true /\ rel <> []) ->
+  NoDup (map fst l) ->
+  copy_entries c dst l = (c', RUnit) ->
+  Inv c' /\
+  (forall rel e, In (rel, e) l -> vlookup c' (dst ++ rel) = Some e) /\
+  (forall q, vlookup c q <> None -> (forall rel e, In (rel, e) l -> q <> dst ++ rel) -> vlookup c' q = vlookup c q).
+Proof.
+  induction l as [|[rel e] l IH]; intros c dst c' I Hd Hl Hnd H.
+  - simpl in H. inversion H; subst. split; [exact I|]. split; [intros ? ? []|auto].
+  - simpl in H. destruct (Hl rel e (or_introl eq_refl)) as [Hr Hrne].
+    assert (Hl' : forall rel0 e0, In (rel0, e0) l -> good_path rel0 = true /\ rel0 <> [])
+      by (intros ? ? Hin; eapply Hl; right; exact Hin).
+    inversion Hnd as [|? ? Hnotin Hnd']; subst.
+    assert (Hgp : good_path (dst ++ rel) = true) by (apply good_path_app; auto).
+    assert (Hpne : dst ++ rel <> []) by (destruct dst; destruct rel; try discriminate; congruence).
+    (* the state after this entry *)
+    assert (Hstep : exists c1, copy_entries c1 dst l = (c', RUnit) /\ Inv c1 /\
+               vlookup c1 (dst ++ rel) = Some e /\
+               (forall q, q <> dst ++ rel -> vlookup c q <> None -> vlookup c1 q = vlookup c q)).
+    { destruct e as [data|].
+      - destruct (c_mkdir c (dst ++ removelast rel)) as [c0 r0] eqn:E0.
+        destruct r0; try (inversion H; fail).
+        assert (Hg0 : good_path (dst ++ removelast rel) = true)
+          by (apply good_path_app; split; [exact Hd|apply good_path_removelast; exact Hr]).
+        destruct (c_mkdir_inv c _ c0 I Hg0 E0) as (I0 & _ & Fr0).
+        destruct (c_write c0 (dst ++ rel) data) as [c1 r1] eqn:E1.
+        destruct r1; try (inversion H; fail).
+        destruct (c_write_inv c0 _ data c1 I0 Hgp Hpne E1) as (I1 & L1 & Fr1).
+        exists c1. split; [exact H|]. split; [exact I1|]. split; [exact L1|].
+        intros q Hq Hex. rewrite Fr1; [apply Fr0; exact Hex|exact Hq|rewrite Fr0; assumption].
+      - destruct (c_mkdir c (dst ++ rel)) as [c1 r1] eqn:E1.
+        destruct r1; try (inversion H; fail).
+        destruct (c_mkdir_inv c _ c1 I Hgp E1) as (I1 & L1 & Fr1).
+        exists c1. split; [exact H|]. split; [exact I1|]. split; [exact L1|].
+        intros q _ Hex. apply Fr1. exact Hex. }
+    destruct Hstep as (c1 & H1 & I1 & L1 & Fr1).
+    destruct (IH c1 dst c' I1 Hd Hl' Hnd' H1) as (I' & All & Keep).
+    split; [exact I'|]. split.
+    + intros rel0 e0 [Heq|Hin]; [|apply All; exact Hin]. inversion Heq; subst rel0 e0.
+      rewrite Keep; [exact L1|congruence|].
+      intros rel2 e2 Hin2 Heq2. apply app_inv_head in Heq2. subst rel2.
+      apply Hnotin. apply in_map_iff. exists (rel, e2). auto.
+    + intros q Hex Hq. rewrite Keep.
+      * apply Fr1; [apply (Hq rel e); left; reflexivity|exact Hex].
+      * rewrite Fr1; [exact Hex|apply (Hq rel e); left; reflexivity|exact Hex].
+      * intros rel2 e2 Hin2. apply (Hq rel2 e2). right. exact Hin2.
+Qed.
+
+(** Copying a directory through the cache: when it reports success, every node visible below the
+    source is visible below the destination with the same entry (byte for byte), and every other
+    visible node that is not one of the written destinations is unchanged. *)
+Theorem c_copy_dir_spec c src dst c' :
+  Inv c -> good_path src = true -> good_path dst = true -> src <> [] ->
+  vlookup c src = Some D -> c_copy c src dst = (c', RUnit) ->
+  Inv c' /\ vlookup c' dst = Some D /\
+  (forall rel e, rel <> [] -> vlookup c (src ++ rel) = Some e -> vlookup c' (dst ++ rel) = Some e).
+Proof.
+  intros I Hs Hd Hsne Hsrc H. unfold c_copy in H. destruct src as [|n src]; [congruence|].
+  destruct (is_prefix (n :: src) dst) eqn:Ep; [discriminate|]. rewrite Hsrc in H.
+  destruct (c_mkdir c dst) as [c1 r1] eqn:E1. destruct r1; try (inversion H; fail).
+  destruct (c_mkdir_inv c dst c1 I Hd E1) as (I1 & L1 & Fr1).
+  set (l := subtree_moved (cview c) (n :: src) []) in *.
+  assert (Hl : forall rel e, In (rel, e) l -> good_path rel = true /\ rel <> []).
+  { intros rel e Hin. unfold l in Hin. apply In_moved in Hin as (x & Hx & Hrel & Hin). simpl in Hrel. subst rel.
+    split; [|exact Hx]. apply (cview_entry_good c _ e I) in Hin. apply good_path_app in Hin. tauto. }
+  assert (Hnd : NoDup (map fst l)) by (unfold l; apply NoDup_moved; apply (cview_WF c I)).
+  destruct (copy_entries_spec l c1 dst c' I1 Hd Hl Hnd H) as (I' & All & Keep).
+  split; [exact I'|]. split.
+  - rewrite Keep; [exact L1|congruence|].
+    intros rel e Hin Heq. destruct (Hl rel e Hin) as [_ Hne].
+    apply (f_equal (@length name)) in Heq. rewrite app_length in Heq. destruct rel; [congruence|simpl in Heq; lia].
+  - intros rel e Hrel Hv. apply All. unfold l.
+    assert (Hin : In ((n :: src) ++ rel, e) (cview c)).
+    { apply lookup_In; [destruct rel; discriminate|]. rewrite lookup_cview. exact Hv. }
+    clear -Hin Hrel. unfold subtree_moved. apply in_flat_map. exists ((n :: src) ++ rel, e). split; [exact Hin|].
+    cbn [fst snd]. rewrite is_prefix_app. rewrite app_length.
+    replace (Nat.eqb (length (n :: src) + length rel) (length (n :: src))) with false.
+    2:{ symmetry. apply Nat.eqb_neq. destruct rel; [congruence|simpl; lia]. }
+    simpl andb. rewrite skipn_app_exact. left. reflexivity.
+Qed.
